@@ -23,7 +23,9 @@ func init() {
 
 const ciPkg = "pkg/chunkinfo"
 
-func c16(r *core.Run) {
+// removalListRule (C16.G1 / C12.G4): the list of chunks a delete or an eviction may remove
+// (getUnRepeatChunk) never contains a chunk whose per-file reference count exceeds one.
+func removalListRule(r *core.Run, rule string) {
 	w := r.W
 	const CP = "pkg/chunkinfo.chunkPyramid"
 	fn := w.Func(ciPkg, "(*ChunkInfo).getUnRepeatChunk")
@@ -38,7 +40,7 @@ func c16(r *core.Run) {
 		return ok && loadsField(CP, "chunk")(core.Forward(lk.X))
 	}
 	shared, _ := core.AtomEdges(fn, cmpAtom(isRefCount, func(y ssa.Value) bool { k, ok := core.ConstInt(y); return ok && k == 1 }, ">"))
-	r.Floor("C16.G1", "reference-count tests in getUnRepeatChunk", len(shared), 2)
+	r.Floor(rule, "reference-count tests in getUnRepeatChunk", len(shared), 2)
 	n := 0
 	core.EachInstr(fn, func(_ *ssa.BasicBlock, _ int, in ssa.Instruction) {
 		c, ok := in.(*ssa.Call)
@@ -50,7 +52,7 @@ func c16(r *core.Run) {
 		}
 		n++
 		// the appended chunk's key is the key whose count was tested in the same iteration
-		r.Check("C16.G1", core.Key("C16.G1", fn, "shared chunk not listed"), c.Pos(), len(shared) > 0 && !core.ReachableFromEdges(fn, shared, c, true),
+		r.Check(rule, core.Key(rule, fn, "shared chunk not listed"), c.Pos(), len(shared) > 0 && !core.ReachableFromEdges(fn, shared, c, true),
 			"a chunk still referenced by another file (count > 1) is never put on the removal list", "from the edge refcount > 1 the chunk can still be appended to the removal list in the same iteration")
 		h := loopHeader(fn, c.Block())
 		okLoop := false
@@ -59,10 +61,16 @@ func c16(r *core.Run) {
 				okLoop = true
 			}
 		}
-		r.Check("C16.G1", core.Key("C16.G1", fn, "refcount tested in the same loop"), c.Pos(), okLoop,
+		r.Check(rule, core.Key(rule, fn, "refcount tested in the same loop"), c.Pos(), okLoop,
 			"every loop that builds the removal list tests the reference count", "a loop appends to the removal list without a reference-count test")
 	})
-	r.Floor("C16.G1", "removal-list appends", n, 2)
+	r.Floor(rule, "removal-list appends", n, 2)
+}
+
+func c16(r *core.Run) {
+	w := r.W
+	const CP = "pkg/chunkinfo.chunkPyramid"
+	removalListRule(r, "C16.G1")
 
 	// W1
 	allowed := map[string]bool{ciPkg + ".(*chunkPyramid).putChunk": true, ciPkg + ".(*chunkPyramid).delChunk": true}
